@@ -9,7 +9,7 @@ PROP = dict(
     level_note="Trusts libm and the 150-line reference evaluator; programs avoid kinks/poles, magnitudes bounded by 1e3. "
                "atan2(scalar, Evaluation) does not compile in the library (uses x.value() on a scalar) and cannot be exercised.",
     technique="reference-model monitor (dual numbers) + cross-variant differential over random programs",
-    rule="random straight-line programs (3..15 operator nodes over 47 operator/function forms, 1..16 variables placed in "
+    rule="random straight-line programs (3..15 operator nodes over 53 operator/function forms (incl. self-aliased compound assignment x op= x), 1..16 variables placed in "
          "random derivative slots) evaluated by Evaluation<double,N> N=1..16, two dynamically sized variants and an "
          "independent dual-number evaluator; a case is non-trivial when it has >= 3 operator nodes and a non-zero "
          "derivative; distinct = distinct hash of (inputs, program)",
